@@ -5,6 +5,9 @@
 (*     Template(filename=src, module_directory=dir [, module_writer=w])   *)
 (* concurrently.  Mirrors mako/template.py: Template._compile_from_file    *)
 (* and _compile_module_file, one action per file-system call:             *)
+(*   CheckDir  os.path.exists(dirname(path))   (util.verify_directory)    *)
+(*   MkDir     os.makedirs(dirname(path)); an error (somebody else made   *)
+(*             it meanwhile) is swallowed and the loop re-checks          *)
 (*   StatSrc   os.stat(filename)[ST_MTIME]                                *)
 (*   Exists    os.path.exists(path)                                       *)
 (*   StatMod   os.stat(path)[ST_MTIME] < filemtime                        *)
@@ -33,58 +36,66 @@ NoTmp == [st |-> "none", from |-> 0, bytes |-> 0]
 \*  process published since it began; seen: versions the module path held since it began; wcalls: calls of module_writer
 Idle == [fmt |-> 0, data |-> 0, rewrote |-> FALSE, loaded |-> NoMod, due0 |-> FALSE, others |-> FALSE,
          seen |-> {}, wcalls |-> 0, second |-> FALSE]
-VARIABLES now, src, mod, tmp, pc, loc, last
-vars == <<now, src, mod, tmp, pc, loc, last>>
+VARIABLES now, src, mod, tmp, pc, loc, last, dir
+vars == <<now, src, mod, tmp, pc, loc, last, dir>>
 
 Due == mod.st = "absent" \/ mod.mt < src.mt \/ mod.magic # Magic
 AllIdle == \A p \in Procs : pc[p] = "idle"
 Init == /\ now = 1 /\ src = [ver |-> 1, mt |-> 0] /\ mod = NoMod /\ tmp = [p \in Procs |-> NoTmp]
         /\ pc = [p \in Procs |-> "idle"] /\ loc = [p \in Procs |-> Idle] /\ last = [ev |-> "init"]
+        /\ dir = FALSE        \* the directory that will hold the module file does not exist yet
 
 (* ---- history steps, only between constructions *)
 Modify(m) == /\ AllIdle /\ src.ver < MaxVer /\ m \in 0..now
              /\ src' = [ver |-> src.ver + 1, mt |-> m] /\ last' = [ev |-> "modify", mt |-> m]
-             /\ UNCHANGED <<now, mod, tmp, pc, loc>>
-Tick == /\ AllIdle /\ now < MaxNow /\ now' = now + 1 /\ last' = [ev |-> "tick"] /\ UNCHANGED <<src, mod, tmp, pc, loc>>
-DeleteMod == /\ AllIdle /\ mod.st # "absent" /\ mod' = NoMod /\ last' = [ev |-> "delmod"] /\ UNCHANGED <<now, src, tmp, pc, loc>>
+             /\ UNCHANGED <<now, mod, tmp, pc, loc, dir>>
+Tick == /\ AllIdle /\ now < MaxNow /\ now' = now + 1 /\ last' = [ev |-> "tick"] /\ UNCHANGED <<src, mod, tmp, pc, loc, dir>>
+DeleteMod == /\ AllIdle /\ mod.st # "absent" /\ mod' = NoMod /\ last' = [ev |-> "delmod"] /\ UNCHANGED <<now, src, tmp, pc, loc, dir>>
 \* the module file is replaced by one written by another generator version -- an older one (newer = FALSE) or
 \* a newer one (a module directory shared between two installations, or a downgrade)
 OtherGen(newer) ==
           /\ AllIdle /\ mod.st = "complete" /\ mod.magic = Magic
           /\ mod' = [mod EXCEPT !.magic = IF newer THEN Magic + 1 ELSE Magic - 1]
-          /\ last' = [ev |-> "oldgen", newer |-> newer] /\ UNCHANGED <<now, src, tmp, pc, loc>>
+          /\ last' = [ev |-> "oldgen", newer |-> newer] /\ UNCHANGED <<now, src, tmp, pc, loc, dir>>
 OldGen == OtherGen(FALSE) \/ OtherGen(TRUE)
 
 (* ---- one construction by process p *)
 Go(p, p2, l2, ev) == /\ pc' = [pc EXCEPT ![p] = p2] /\ loc' = [loc EXCEPT ![p] = l2] /\ last' = ev @@ [p |-> p]
 Begin(p) == /\ pc[p] = "idle"
-            /\ Go(p, "StatSrc", [Idle EXCEPT !.due0 = Due, !.seen = IF mod.st = "absent" THEN {} ELSE {mod.from}], [ev |-> "begin"])
-            /\ UNCHANGED <<now, src, mod, tmp>>
+            /\ Go(p, "CheckDir", [Idle EXCEPT !.due0 = Due, !.seen = IF mod.st = "absent" THEN {} ELSE {mod.from}], [ev |-> "begin"])
+            /\ UNCHANGED <<now, src, mod, tmp, dir>>
+\* util.verify_directory: while not exists(dir): try makedirs(dir) except: pass (up to 5 tries)
+CheckDir(p) == /\ pc[p] = "CheckDir"
+               /\ Go(p, IF dir THEN "StatSrc" ELSE "MkDir", loc[p], [ev |-> "direxists", r |-> dir])
+               /\ UNCHANGED <<now, src, mod, tmp, dir>>
+MkDir(p)   == /\ pc[p] = "MkDir"
+              /\ Go(p, "CheckDir", loc[p], [ev |-> "mkdir", created |-> ~dir])     \* already there: the error is swallowed
+              /\ dir' = TRUE /\ UNCHANGED <<now, src, mod, tmp>>
 StatSrc(p) == /\ pc[p] = "StatSrc" /\ Go(p, "Exists", [loc[p] EXCEPT !.fmt = src.mt], [ev |-> "statsrc", mt |-> src.mt])
-              /\ UNCHANGED <<now, src, mod, tmp>>
+              /\ UNCHANGED <<now, src, mod, tmp, dir>>
 Exists(p)  == /\ pc[p] = "Exists"
               /\ IF mod.st = "absent" THEN Go(p, "ReadSrc", loc[p], [ev |-> "exists", r |-> FALSE])
                  ELSE Go(p, "StatMod", loc[p], [ev |-> "exists", r |-> TRUE])
-              /\ UNCHANGED <<now, src, mod, tmp>>
+              /\ UNCHANGED <<now, src, mod, tmp, dir>>
 \* the module may have vanished only through DeleteMod, which needs all processes idle: StatMod always finds it
 StatMod(p) == /\ pc[p] = "StatMod" /\ mod.st # "absent"
               /\ IF mod.mt < loc[p].fmt THEN Go(p, "ReadSrc", loc[p], [ev |-> "statmod", stale |-> TRUE])
                  ELSE Go(p, "Load", loc[p], [ev |-> "statmod", stale |-> FALSE])
-              /\ UNCHANGED <<now, src, mod, tmp>>
+              /\ UNCHANGED <<now, src, mod, tmp, dir>>
 \* (the trace specification accepts the read from any probing label: which probes are made, and in which
 \* order, is not part of the property -- whether the decision was right is judged at Done)
 Probing == {"StatSrc", "Exists", "StatMod"}
 ReadSrcFrom(p, labels) ==
               /\ pc[p] \in labels
               /\ Go(p, IF UseWriter THEN "CallWriter" ELSE "Mkstemp", [loc[p] EXCEPT !.data = src.ver], [ev |-> "readsrc", ver |-> src.ver])
-              /\ UNCHANGED <<now, src, mod, tmp>>
+              /\ UNCHANGED <<now, src, mod, tmp, dir>>
 ReadSrc(p) == ReadSrcFrom(p, {"ReadSrc"})
 Mkstemp(p) == /\ pc[p] = "Mkstemp" /\ tmp' = [tmp EXCEPT ![p] = [st |-> "open", from |-> loc[p].data, bytes |-> 0]]
-              /\ Go(p, "Write", loc[p], [ev |-> "mkstemp"]) /\ UNCHANGED <<now, src, mod>>
+              /\ Go(p, "Write", loc[p], [ev |-> "mkstemp"]) /\ UNCHANGED <<now, src, mod, dir>>
 Write(p)   == /\ pc[p] = "Write" /\ tmp' = [tmp EXCEPT ![p].bytes = 2]
-              /\ Go(p, "Close", loc[p], [ev |-> "write"]) /\ UNCHANGED <<now, src, mod>>
+              /\ Go(p, "Close", loc[p], [ev |-> "write"]) /\ UNCHANGED <<now, src, mod, dir>>
 Close(p)   == /\ pc[p] = "Close" /\ tmp' = [tmp EXCEPT ![p].st = "closed"]
-              /\ Go(p, "Move", loc[p], [ev |-> "close"]) /\ UNCHANGED <<now, src, mod>>
+              /\ Go(p, "Move", loc[p], [ev |-> "close"]) /\ UNCHANGED <<now, src, mod, dir>>
 \* everybody else that is in the middle of a construction notices (ghost) that the module was replaced
 Published(p, v) == [q \in Procs |-> IF q = p THEN [loc[p] EXCEPT !.rewrote = TRUE, !.seen = @ \cup {v}]
                                     ELSE IF pc[q] # "idle" THEN [loc[q] EXCEPT !.others = TRUE, !.seen = @ \cup {v}] ELSE loc[q]]
@@ -96,7 +107,7 @@ MoveFrom(p, label, written) ==
               /\ mod' = [st |-> "complete", from |-> tmp[p].from, magic |-> Magic, mt |-> now]
               /\ tmp' = [tmp EXCEPT ![p] = NoTmp]
               /\ pc' = [pc EXCEPT ![p] = "Load"] /\ loc' = Published(p, tmp[p].from) /\ last' = [ev |-> "move", p |-> p]
-              /\ UNCHANGED <<now, src>>
+              /\ UNCHANGED <<now, src, dir>>
 Move(p)    == MoveFrom(p, "Move", FALSE)
 \* a user-supplied module_writer gets (encoded source, destination path); it is the writer's business to
 \* be atomic -- modelled as one step
@@ -104,27 +115,27 @@ CallWriter(p) == /\ pc[p] = "CallWriter"
                  /\ mod' = [st |-> "complete", from |-> loc[p].data, magic |-> Magic, mt |-> now]
                  /\ pc' = [pc EXCEPT ![p] = "Load"]
                  /\ loc' = [Published(p, loc[p].data) EXCEPT ![p].wcalls = @ + 1]
-                 /\ last' = [ev |-> "writer", p |-> p] /\ UNCHANGED <<now, src, tmp>>
+                 /\ last' = [ev |-> "writer", p |-> p] /\ UNCHANGED <<now, src, tmp, dir>>
 LoadFrom(p, labels) ==
               /\ pc[p] \in labels /\ mod.st = "complete"
               /\ IF mod.magic # Magic /\ ~loc[p].second
                  THEN Go(p, "ReadSrc", [loc[p] EXCEPT !.loaded = mod, !.second = TRUE], [ev |-> "load", from |-> mod.from, magic |-> mod.magic])
                  ELSE Go(p, "Done", [loc[p] EXCEPT !.loaded = mod], [ev |-> "load", from |-> mod.from, magic |-> mod.magic])
-              /\ UNCHANGED <<now, src, mod, tmp>>
+              /\ UNCHANGED <<now, src, mod, tmp, dir>>
 Load(p)    == LoadFrom(p, {"Load"})
 \* importing a file that is not a complete module fails: the construction raises
 LoadFail(p) == /\ pc[p] = "Load" /\ mod.st # "complete"
-               /\ Go(p, "idle", Idle, [ev |-> "exc"]) /\ UNCHANGED <<now, src, mod, tmp>>
+               /\ Go(p, "idle", Idle, [ev |-> "exc"]) /\ UNCHANGED <<now, src, mod, tmp, dir>>
 Done(p)    == /\ pc[p] = "Done"
               /\ Go(p, "idle", loc[p], [ev |-> "done", rendered |-> loc[p].loaded.from, rewrote |-> loc[p].rewrote])
-              /\ UNCHANGED <<now, src, mod, tmp>>
+              /\ UNCHANGED <<now, src, mod, tmp, dir>>
 (* ---- the process dies: at any label; inside Write the temp file may hold half of the bytes *)
 Crash(p)   == /\ pc[p] # "idle" /\ pc' = [pc EXCEPT ![p] = "idle"] /\ loc' = [loc EXCEPT ![p] = Idle]
               /\ last' = [ev |-> "crash", at |-> pc[p], p |-> p]
               /\ \/ tmp' = tmp
                  \/ pc[p] = "Write" /\ tmp' = [tmp EXCEPT ![p].bytes = 1]       \* died midway through os.write
-              /\ UNCHANGED <<now, src, mod>>
-Step(p) == Begin(p) \/ StatSrc(p) \/ Exists(p) \/ StatMod(p) \/ ReadSrc(p) \/ Mkstemp(p) \/ Write(p) \/ Close(p)
+              /\ UNCHANGED <<now, src, mod, dir>>
+Step(p) == Begin(p) \/ CheckDir(p) \/ MkDir(p) \/ StatSrc(p) \/ Exists(p) \/ StatMod(p) \/ ReadSrc(p) \/ Mkstemp(p) \/ Write(p) \/ Close(p)
            \/ Move(p) \/ CallWriter(p) \/ Load(p) \/ LoadFail(p) \/ Done(p)
 Env == Tick \/ DeleteMod \/ OldGen \/ \E m \in 0..MaxNow : Modify(m)
 Next == Env \/ \E p \in Procs : Step(p) \/ Crash(p)
